@@ -366,3 +366,124 @@ func SnapRegistry() []string {
 }
 
 var _ = token.NoPos
+
+// ---- generic deep rendering of the shared context (every field, exported or not) ----
+//
+// SnapContext above names the documented fields; DeepCtx walks the struct reflectively so that state ADDED to
+// linter.Context by a change (caches, counters, maps, sync.Map, ...) is watched as well. Pointers into go/types,
+// go/token and go/ast (the inputs, fingerprinted separately) are rendered by address only.
+
+var inputPkgs = map[string]bool{"go/types": true, "go/token": true, "go/ast": true, "go/constant": true}
+
+type deepWalker struct {
+	b    strings.Builder
+	seen map[uintptr]bool
+}
+
+func (w *deepWalker) val(v reflect.Value, depth int) {
+	if depth > 8 {
+		w.b.WriteString("…")
+		return
+	}
+	switch v.Kind() {
+	case reflect.Bool:
+		fmt.Fprintf(&w.b, "%v", v.Bool())
+	case reflect.Int, reflect.Int8, reflect.Int16, reflect.Int32, reflect.Int64:
+		fmt.Fprintf(&w.b, "%d", v.Int())
+	case reflect.Uint, reflect.Uint8, reflect.Uint16, reflect.Uint32, reflect.Uint64, reflect.Uintptr:
+		fmt.Fprintf(&w.b, "%d", v.Uint())
+	case reflect.Float32, reflect.Float64:
+		fmt.Fprintf(&w.b, "%g", v.Float())
+	case reflect.String:
+		fmt.Fprintf(&w.b, "%q", v.String())
+	case reflect.Func, reflect.Chan, reflect.UnsafePointer:
+		fmt.Fprintf(&w.b, "@%x", v.Pointer())
+	case reflect.Interface:
+		if v.IsNil() {
+			w.b.WriteString("nil")
+			return
+		}
+		w.val(v.Elem(), depth+1)
+	case reflect.Ptr:
+		if v.IsNil() {
+			w.b.WriteString("nil")
+			return
+		}
+		addr := v.Pointer()
+		fmt.Fprintf(&w.b, "&%x", addr)
+		et := v.Type().Elem()
+		if inputPkgs[et.PkgPath()] || w.seen[addr] {
+			return
+		}
+		w.seen[addr] = true
+		w.val(v.Elem(), depth+1)
+	case reflect.Struct:
+		t := v.Type()
+		w.b.WriteString(t.Name() + "{")
+		for i := 0; i < v.NumField(); i++ {
+			w.b.WriteString(t.Field(i).Name + "=")
+			w.val(v.Field(i), depth+1)
+			w.b.WriteString(";")
+		}
+		w.b.WriteString("}")
+	case reflect.Slice, reflect.Array:
+		if v.Kind() == reflect.Slice && v.IsNil() {
+			w.b.WriteString("nil[]")
+			return
+		}
+		n := v.Len()
+		fmt.Fprintf(&w.b, "[%d:", n)
+		for i := 0; i < n && i < 64; i++ {
+			w.val(v.Index(i), depth+1)
+			w.b.WriteString(",")
+		}
+		w.b.WriteString("]")
+	case reflect.Map:
+		if v.IsNil() {
+			w.b.WriteString("nilmap")
+			return
+		}
+		fmt.Fprintf(&w.b, "map#%d@%x{", v.Len(), v.Pointer())
+		var ents []string
+		it := v.MapRange()
+		for it.Next() {
+			kw := &deepWalker{seen: w.seen}
+			kw.val(it.Key(), depth+1)
+			kw.b.WriteString("=>")
+			kw.val(it.Value(), depth+1)
+			ents = append(ents, kw.b.String())
+		}
+		sort.Strings(ents)
+		if len(ents) > 64 {
+			ents = ents[:64]
+		}
+		w.b.WriteString(strings.Join(ents, ","))
+		w.b.WriteString("}")
+	default:
+		w.b.WriteString("?")
+	}
+}
+
+// DeepCtx renders every field of the context, one "name=value" entry per top-level field.
+func DeepCtx(c *linter.Context) []string {
+	v := reflect.ValueOf(c).Elem()
+	t := v.Type()
+	out := make([]string, 0, v.NumField())
+	for i := 0; i < v.NumField(); i++ {
+		w := &deepWalker{seen: map[uintptr]bool{}}
+		w.val(v.Field(i), 0)
+		out = append(out, t.Field(i).Name+"="+w.b.String())
+	}
+	return out
+}
+
+// DiffDeep names the top-level fields whose rendering differs.
+func DiffDeep(a, b []string) []string {
+	var d []string
+	for i := range a {
+		if i < len(b) && a[i] != b[i] {
+			d = append(d, clip(a[i])+"  ->  "+clip(b[i]))
+		}
+	}
+	return d
+}
